@@ -92,6 +92,29 @@ for n in range(N + 1):
     rep.case(("the-correlated", n))
     if not ok:
         rep.fail("the::nested-correlated", f"the() with n={n} solutions depending on a variable of the enclosing query: {st} {r!r}", {"n": n, "nested": True})
+# a quantified query that is SELECTED by an enclosing query and mentioned again in its condition keeps counting
+for upper in (1, 2):
+    for n in range(0, 5):
+        def twice(n=n, upper=upper):
+            x = let(int, list(range(1, n + 1)))
+            inner = an(entity(x), quantification=AtMost(upper))
+            got_ = []
+            try:
+                for r in an(entity(inner, inner != 99)).evaluate():
+                    got_.append(r)
+            except Exception as e:
+                return got_, e
+            return got_, None
+        st, r = guarded(twice)
+        rep.case(("mentioned-twice", upper, n))
+        if st == "exc":
+            rep.fail("an::mentioned-twice::raised", f"AtMost({upper}) with n={n} solutions, selected and mentioned in the condition: {type(r).__name__}: {r}", {"upper": upper, "n": n})
+            continue
+        got_, exc = r
+        ey, eexc = expect(n, 0, upper)
+        if len(got_) != ey or (eexc is None) != (exc is None) or (eexc is not None and type(exc) is not eexc):
+            rep.fail("an::mentioned-twice", f"an(entity(inner, inner != 99)) with inner = an(entity(x), AtMost({upper})) over {n} solutions: yielded {len(got_)}, raised "
+                     f"{type(exc).__name__ if exc else None}; expected {ey} / {eexc.__name__ if eexc else None}", {"upper": upper, "n": n})
 # falsy solutions are solutions: the single solution 0 / "" must be returned by the()
 for dom, want in (([0], 0), ([""], ""), ([[]], [])):
     st, r = guarded(lambda: the(entity(let(type(want), dom))).evaluate())
